@@ -87,9 +87,9 @@ def longKeyword (item : Item) (kw : Bytes) : Option Item :=
 /-- the loop of `parse_long_magic` (pos is behind `:(`); the result is the item and `copyfrom` -/
 def longLoop : Nat → Item → Bytes → Option (Item × Bytes)
   | 0, _, _ => none
-  | _ + 1, _, [] => none                                   -- Missing ')' at the end of pathspec magic
   | f + 1, item, pos =>
-    if pos.head? == some 41 then some (item, pos.drop 1)
+    if pos.isEmpty then none                                  -- Missing ')' at the end of pathspec magic
+    else if pos.head? == some 41 then some (item, pos.drop 1)
     else
       let len := strcspnEscaped pos
       let nextat := if pos[len]? == some 44 then pos.drop (len + 1) else pos.drop len
